@@ -171,6 +171,23 @@ def run(ctx):
             conv = (tr == 'From' and rname in MATS and len(anames) == 1 and anames[0] in MATS) or \
                    (not tr and rname in MATS and re.match(r'^from_(mat\da?|affine\d)(_translation)?$', mname) and anames and anames[0] in MATS)
             cast = not tr and re.match(r'^as_d?(mat\d|affine\d)a?$', mname) and rname in MATS and anames and anames[0] in MATS
+            if not tr and mname in ('as_dquat', 'as_quat') and rname in ('Quat', 'DQuat') and anames and anames[0] in ('Quat', 'DQuat'):
+                # f32 <-> f64 quaternion: component i is the cast of component i
+                r = H.run(it['key'])
+                bad = r.abort or ('reachable panic' if r.panics else None)
+                if not bad:
+                    src_l = ArgView(F, r, 0, argtys[0]).lanes
+                    dst_l = value_lanes(F, r.ret, rty)
+                    fw, tw = ('f32', 'f64') if rname == 'DQuat' else ('f64', 'f32')
+                    if src_l is None or dst_l is None or len(src_l) != 4 or len(dst_l) != 4:
+                        bad = 'quaternion components not found'
+                    else:
+                        for i in range(4):
+                            if dst_l[i] is not tm.cast('FloatToFloat', fw, tw, src_l[i]):
+                                bad = 'component %s is %s, expected component %s cast to %s' % ('xyzw'[i], tm.show(dst_l[i], 0, 3)[:100], 'xyzw'[i], tw)
+                                break
+                done('R-COPY', name, bad, it)
+                continue
             if conv or cast:
                 r = H.run(it['key'])
                 if r.abort or r.panics:
